@@ -269,8 +269,10 @@ def view_checks(cx):
                 for dname, p in ps.items():
                     pv = pub['pos'][oid][dname]
                     # ---- C10 never negative
-                    closing = [o for o in oo if o['oid'] == oid and o['eff'] in ('CLOSE', 'CLOSE_TODAY') and
-                               ((o['side'] == 'SELL') == (dname == 'LONG')) and o['status'] in ('ACTIVE', 'PENDING_NEW')]
+                    # the closable view subtracts every closing order listed in the broker's books (Position._open_orders), also one the matcher
+                    # has just made final and not yet removed (inside a matching round)
+                    listed = [o for o in oo if o['oid'] == oid and o['eff'] in ('CLOSE', 'CLOSE_TODAY') and ((o['side'] == 'SELL') == (dname == 'LONG'))]
+                    closing = [o for o in listed if o['status'] in ('ACTIVE', 'PENDING_NEW')]
                     for k, v in (('quantity', p['qty']), ('old_quantity', p['old']), ('closable', pv.get('closable')), ('today_closable', pv.get('today_closable'))):
                         if k.endswith('closable') and p['qty'] == 0 and not closing:
                             continue        # an emptied position (delisting / expiry) may still carry today's T+1 lock: nothing is closable
@@ -296,10 +298,10 @@ def view_checks(cx):
                             cx.case('views.position', term, dict(oid=oid, dir=dname, priv=p, pub=pv, dt=s['cal'], ev=m['ev']))
                             g = '{| cc_stock := %s; cc_t1 := %s; cc_tplus := %s |}' % (blit(not fut), blit(cx.t1), blit(ins['tplus'] >= 1))
                             book = '[%s]' % '; '.join('{| co_id := %d; co_today := %s; co_unfilled := %s |}' % (k, blit(o['eff'] == 'CLOSE_TODAY'), q(o['qty'] - o['filled']))
-                                                       for k, o in enumerate(closing))
+                                                       for k, o in enumerate(listed))
                             st = '{| cs_qty := %s; cs_old := %s; cs_nc := %s; cs_book := %s |}' % (q(p['qty']), q(p['old']), q(p.get('non_closable') or 0.0), book)
                             cx.case('views.closable', 'chk_closable %s %s %s %s' % (g, st, q(pv['closable']), q(pv['today_closable'])),
-                                    dict(oid=oid, dir=dname, priv=p, closing=closing, pub=pv, dt=s['cal']))
+                                    dict(oid=oid, dir=dname, priv=p, closing=listed, pub=pv, dt=s['cal']))
                         except Skip:
                             cx.skipped += 1
             if not ok_sum:
@@ -728,6 +730,7 @@ def daily_monitor(cx):
     """C03: daily returns / compounding / daily pnl = change of value net of flows"""
     eod = None
     prod = 1.0
+    bankrupt = False
     flows = {}
     for i0, i1 in steps.api_spans(cx.trace):
         act = cx.trace[i0]['act']
@@ -754,16 +757,19 @@ def daily_monitor(cx):
             exp_r = nav / eod['nav'] - 1
             if not close(r, exp_r, 1e-9):
                 cx.hit('C03.daily_return', {}, dict(daily_returns=r, expected=exp_r, nav=nav, nav_prev=eod['nav'], dt=s['cal']))
+        if nav <= 0:
+            bankrupt = True      # the compounding identity presupposes non-zero net values (hypothesis of C03_compounding): a wiped-out portfolio ends the chain
         if isinstance(r, float) and not math.isnan(r):
             prod *= (1 + r)
-            if not close(prod - 1, pub.get('p_total_returns'), 1e-9) and eod is not None and eod.get('chain'):
+            if not close(prod - 1, pub.get('p_total_returns'), 1e-9) and eod is not None and eod.get('chain') and not bankrupt:
                 cx.hit('C03.compounding', {}, dict(product=prod - 1, total_returns=pub.get('p_total_returns'), dt=s['cal']))
         for acc, a in s['acc'].items():
             pa = pub[acc]
             if eod is not None and acc in eod['tv'] and isinstance(pa.get('daily_pnl'), float) and isinstance(pa.get('total_value'), float):
                 dtv = pa['total_value'] - eod['tv'][acc] - flows.get((d, acc), 0.0)
                 mg = a['mgmt_fees'] - eod['mgmt'].get(acc, 0.0)
-                liquid = not a['pos'] and a['total_cash'] == 0 and eod['haspos'].get(acc)
+                # forced liquidation zeroes the cash at every settlement while the total value is not positive: no P&L identity in that state
+                liquid = not a['pos'] and a['total_cash'] == 0 and (eod['haspos'].get(acc) or pa['total_value'] <= 0)
                 if not liquid and not close(pa['daily_pnl'], dtv + mg, 1e-6, abs(pa['total_value']) * 1e-3):
                     cx.hit('C03.daily_pnl', dict(acc=acc, financing=a['liab'] > 0 or eod['liab'].get(acc, 0) > 0),
                            dict(daily_pnl=pa['daily_pnl'], dvalue_net_of_flows=dtv, mgmt=mg, dt=s['cal']))
